@@ -216,3 +216,113 @@ class C16(Prop):
         else:
             k = t[0]
         hist[k] = hist.get(k, 0) + 1
+
+
+# ---------------------------------------------------------------------------------------------
+# C07 / C08: colour conversion
+
+def yuv_line(w, h, ys, cbs, crs):
+    return f"Y {w} {hexb(ys)} {hexb(cbs)} {hexb(crs)}"
+
+
+@register
+class C07(Prop):
+    id = "C07"
+    thm_module = "H263V.Thm.C07"
+    rule = ("Y lines: 256x1 pictures, luma 0..255 with one (Cb, Cr) pair per picture, through bt601::yuv420_to_rgba vs. the Lean "
+            "model; quick: a 24x24 stratified grid of (Cb, Cr) pairs incl. the extremes (147,456 triples) plus random pairs; "
+            "thorough: all 65,536 pairs = all 2^24 triples.  Non-trivial / distinct: distinct (Y,Cb,Cr) triples counted (256 per distinct pair).")
+    assumptions = ["little-endian target (the big-endian cfg branch of the byte interleave is not compiled here)",
+                   "wide::i32x4 operations are lane-wise and wrap (modelled with explicit wrap32, proved not to occur)"]
+
+    def cases(self, tier, rng):
+        out = []
+        ys = list(range(256))
+        if tier == "quick":
+            grid = sorted(set([0, 1, 2, 15, 16, 17, 64, 90, 110, 126, 127, 128, 129, 130, 160, 200, 224, 239, 240, 241, 243, 244, 254, 255]))
+            pairs = [(a, b) for a in grid for b in grid]
+            pairs += [(rng.randint(0, 255), rng.randint(0, 255)) for _ in range(400)]
+        else:
+            pairs = [(a, b) for a in range(256) for b in range(256)]
+        for (cb, cr) in pairs:
+            out.append(yuv_line(256, 1, ys, [cb] * 128, [cr] * 128))
+        self._pairs = len(set(pairs))
+        return out
+
+    def nontrivial(self, case, model_out):
+        return True
+
+    def oracle_line(self, case):
+        return "YS " + case.split(" ", 1)[1]
+
+    def tally(self, hist, case, impl, model):
+        hist["triples"] = hist.get("triples", 0) + 256
+        # how many of the output channels were clamped at 0 or 255 (branch coverage of the clamp)
+        if model.startswith("Y ") and len(model) > 4:
+            h = model[2:]
+            lo = sum(1 for k in range(0, len(h), 8) for c in range(3) if h[k + 2 * c:k + 2 * c + 2] == "00")
+            hi = sum(1 for k in range(0, len(h), 8) for c in range(3) if h[k + 2 * c:k + 2 * c + 2] == "ff")
+            hist["channels_at_0"] = hist.get("channels_at_0", 0) + lo
+            hist["channels_at_255"] = hist.get("channels_at_255", 0) + hi
+
+    def exhaustive(self, tier):
+        return tier == "thorough"
+
+
+def yuv_size_cases(rng, sizes):
+    out = []
+    for (w, h) in sizes:
+        bw, bh = (w + 1) // 2, (h + 1) // 2
+        ys = [rng.randint(0, 255) for _ in range(w * h)]
+        cbs = [rng.randint(0, 255) for _ in range(bw * bh)]
+        crs = [rng.randint(0, 255) for _ in range(bw * bh)]
+        out.append(yuv_line(w, h, ys, cbs, crs))
+    return out
+
+
+@register
+class C08(Prop):
+    id = "C08"
+    thm_module = "H263V.Thm.C08"
+    rule = ("Y lines: pictures of every width x height of the tier's range (quick: 1..70 x 1..9; thorough: 1..140 x 1..18, plus random "
+            "larger ones) with random plane contents, plus empty pictures (w x 0 for several w), through bt601::yuv420_to_rgba "
+            "(debug assertions on) vs. the Lean model; the search oracle is the pointwise statement pixel(x,y) = BT.601(luma(x,y), chroma(x/2,y/2)). "
+            "Non-trivial: width not a multiple of 4, or odd height, or more than one 4-pixel group per row. Distinct by case text.")
+    assumptions = C07.assumptions
+
+    def cases(self, tier, rng):
+        if tier == "quick":
+            sizes = [(w, h) for w in range(1, 71) for h in range(1, 10)]
+            sizes += [(rng.randint(71, 400), rng.randint(1, 40)) for _ in range(60)]
+        else:
+            sizes = [(w, h) for w in range(1, 141) for h in range(1, 19)]
+            sizes += [(rng.randint(141, 1500), rng.randint(1, 60)) for _ in range(300)]
+        out = yuv_size_cases(rng, sizes)
+        out += [f"Y {w} - - -" for w in (0, 1, 2, 3, 4, 5, 16, 17, 176)]
+        return out
+
+    def nontrivial(self, case, model_out):
+        t = case.split(" ")
+        w = int(t[1])
+        n = 0 if t[2] == "-" else len(t[2]) // 2
+        if n == 0 or w == 0:
+            return False
+        h = n // w
+        return w % 4 != 0 or h % 2 == 1 or w >= 8
+
+    def oracle_line(self, case):
+        return "YS " + case.split(" ", 1)[1]
+
+    def in_domain(self, case):
+        t = case.split(" ")
+        w = int(t[1])
+        n = 0 if t[2] == "-" else len(t[2]) // 2
+        return n == 0 or w >= 1
+
+    def tally(self, hist, case, impl, model):
+        t = case.split(" ")
+        w = int(t[1])
+        n = 0 if t[2] == "-" else len(t[2]) // 2
+        h = n // w if w else 0
+        k = "empty" if n == 0 else f"w%4={w % 4} h%2={h % 2} groups={'0' if w < 4 else ('1' if w < 8 else '>1')}"
+        hist[k] = hist.get(k, 0) + 1
